@@ -1,5 +1,4 @@
-import Cppcms.C11.Model
-import Cppcms.C11.Spec
+import Cppcms.C11.KeyOrder
 /-! Helper lemmas for C11, part 1: every token other than eof/err consumes input, hence the
 fuel of `tokens` suffices and `tokens` unfolds along `next`. -/
 namespace Cppcms.C11
